@@ -45,6 +45,13 @@ def cases(draw, exclude: frozenset = frozenset()):
 		m0 = 'from collections.abc import Callable\n' + m0
 	m0 += '\ndef zz_dep(a_z: int) -> int:\n\tfn_z: Callable[[int], int] = lambda p_z: p_z + 1\n\treturn fn_z(a_z)\n'
 	m1 = pygen.gen_program(rnd, set(exclude) | {'lambda'}, size=1)['source']
+	# the same names with other declarations in the two variants (an inherited method, a function, a class field): whatever an earlier
+	# submission resolved for `__main__#ZS.zget` etc. must not survive the re-submission
+	tails = []
+	for t, v in (('int', '1'), ('str', "'s'")):
+		tails.append(f'\nclass ZB:\n\tzf: {t}\n\n\tdef __init__(self) -> None:\n\t\tself.zf = {v}\n\n\tdef zget(self) -> {t}:\n\t\treturn {v}\n\nclass ZS(ZB):\n\tpass\n\n'
+			f'def zmake() -> {t}:\n\treturn {v}\n\ndef zuse(s_z: ZS) -> None:\n\ta_z = s_z.zget()\n\tb_z = zmake()\n\tc_z = s_z.zf\n\td_z = [a_z, b_z]\n')
+	m0, m1 = m0 + tails[0], m1 + tails[1]
 	mains = [m0, m1]
 	third = two['c'] if sibling else pygen.gen_program(rnd, set(exclude), size=1)['source']  # module C: independent of A and B unless it is a sibling importer
 	# a __main__ variant that imports module A of *this* pool: reuse B's text of a second generation over the same A is not possible, so use B itself as a main variant
@@ -254,7 +261,7 @@ def judge(scratch: str, case: dict, hashseeds: tuple = ('0',)) -> tuple[list[tup
 
 
 def shard(ctx: core.Ctx) -> None:
-	exclude = core.frontend_exclusions() | frozenset(ctx.excluded) | frozenset({'optional'})  # Optional values are typed but not transpiled (no None on the C++ side)
+	exclude = core.frontend_exclusions() | frozenset(ctx.excluded) | frozenset({'optional', 'iterator-class'})  # Optional values are typed but not transpiled (no None on the C++ side)
 	counter = [0]
 
 	def body(case: dict) -> None:
